@@ -352,7 +352,10 @@ fn g_utf8_string() -> BoxedStrategy<String> {
 fn g_payload() -> BoxedStrategy<EciPayload> {
     let seg = (any::<u16>(), g_utf8_string(), vec(any::<u8>(), 0..10), any::<u16>(), any::<u8>(), any::<bool>()).prop_map(|(e, s, raw, mutate, mv, b256)| {
         let eci = [3u32, 11, 13, 26, 27, 26, 26][pick(e, 7)];
-        let mut payload: Vec<u8> = match eci {
+        // mostly a payload that is valid for the character set, sometimes (mutate % 8 == 1, 2) one
+        // of the other kinds: the oracle decides what has to happen
+        let kind = match mutate % 8 { 1 => 26, 2 => 3, 5 => 27, _ => eci };
+        let mut payload: Vec<u8> = match kind {
             26 => s.into_bytes(),
             27 => raw.iter().map(|b| b & 0x7f).collect(),
             _ => raw.iter().map(|b| if charset::is_printable_byte(*b) { *b } else { b | 0xa0 }).collect(),
